@@ -616,14 +616,8 @@ func propC10(c *Ctx) {
 		}
 		c.writersTable("C10.R2", "ophost/keeper.Keeper", "NextL1Sequences", setOf("Set", "Remove", "Clear"),
 			[]string{"(ophost/keeper.MsgServer).InitiateTokenDeposit", "(ophost.AppModule).InitGenesis"})
-		eff := c.W.BuildEffects()
-		o3 := c.Ob("C10.R2", "SetNextL1Sequence is called only from InitGenesis")
-		for _, f := range eff.Callers(c.Method(hostKeeper, "Keeper", "SetNextL1Sequence")) {
-			o3.Sites++
-			if fnShort(f) != "(ophost.AppModule).InitGenesis" {
-				o3.Fail(c.W.Pos(f.Pos()), "called from "+fnShort(f), nil)
-			}
-		}
+		// (which helper performs the write is not constrained: the writers table above is over
+		// entry points and the handler rule decides the stored value)
 	})
 
 	c.Rule("C10.R5", func() {
@@ -911,6 +905,52 @@ func propC11(c *Ctx) {
 		}
 		if nOK == 0 {
 			o.Fail(c.W.Pos(fn.Pos()), "no success path within the unrolling bound", nil)
+		}
+	})
+
+	// independence between bridges: every enumeration of the output log is confined to ONE
+	// bridge's prefix - the range is NewPrefixedPairRange(<a bridge id parameter>), possibly
+	// descending; ranges without a lower bound (NewPrefixUntilPairRange) or unprefixed walks
+	// run into other bridges' outputs
+	c.Rule("C11.R6", func() {
+		o := c.Ob("C11.R6", "every walk over OutputProposals is confined to one bridge's prefix (NewPrefixedPairRange of a bridge id)")
+		seenFn := map[*ssa.Function]bool{}
+		for _, st := range c.W.BuildEffects().Where(func(s *Site) bool {
+			return s.Kind == SColl && s.Field == "OutputProposals" && (s.Method == "Walk" || s.Method == "Iterate")
+		}) {
+			fn := st.Fn
+			for fn.Parent() != nil {
+				fn = fn.Parent()
+			}
+			if seenFn[fn] {
+				continue
+			}
+			seenFn[fn] = true
+			for _, p := range c.Paths(fn, PO{Visits: 2}) {
+				o.Paths++
+				for i := range p.Events {
+					ev := &p.Events[i]
+					f, m, ok := collOp(ev)
+					if !ok || f != "OutputProposals" || (m != "Walk" && m != "Iterate") {
+						continue
+					}
+					o.Sites++
+					rng := strip(ev.Call.Args[2])
+					for rng.Op == "call" && strings.HasSuffix(rng.Name, ").Descending") && len(rng.Args) == 1 {
+						rng = strip(rng.Args[0])
+					}
+					if rng.Op != "call" || rng.Name != "collections.NewPrefixedPairRange" || len(rng.Args) != 1 {
+						o.Fail(c.evPos(ev), fnShort(fn)+" enumerates OutputProposals over "+trunc(rng.Key(), 120)+": not confined to one bridge's prefix", c.Dump(p, i))
+						continue
+					}
+					if id := strip(rng.Args[0]); id.Op != "param" && !strings.HasSuffix(id.Key(), ".BridgeId") && !strings.HasPrefix(id.Key(), "opaque:cbarg0(") {
+						o.Fail(c.evPos(ev), fnShort(fn)+" enumerates the outputs of bridge "+trunc(id.Key(), 80)+" (want a bridge id it was given)", c.Dump(p, i))
+					}
+				}
+			}
+		}
+		if o.Sites < 2 {
+			o.Fail("-", fmt.Sprintf("only %d output-log enumerations found (floor 2: forward and reverse iteration)", o.Sites), nil)
 		}
 	})
 
